@@ -6,7 +6,11 @@ CHECK = {'rule': 'Holders of the shared mutex service (goroutines calling Shared
          'no live holder must reach its section while the others stay parked (watchdog 20 s); plus all 1458 two-holder scripts over 3 resources. '
          "Non-trivial ('holders'): >=2 different holders that name a common resource and whose Lock..Unlock windows overlapped (by the recorded "
          "numbers). Non-trivial ('gated'): a holder was started while another one was parked inside its section and either had to acquire beside it "
-         '(both maps non-empty) or shares a resource with it. Distinct = distinct case JSON (FNV-64) per kind.',
+         '(both maps non-empty) or shares a resource with it. Distinct = distinct case JSON (FNV-64) per kind. '
+         "Argument layer (kinds 'cli-holders', 'cli-gated'): the same two executors with every holder a separate terminal session running "
+         "`pip:run --rlock=... --wlock=... --body=probe` on one app (generated lists: names in both lists, repeated names, '@' global names, blanks "
+         "around commas; model: a name under --wlock was asked for write); kind 'cli-map': one pip:run line handed to a recording PipRunner, the "
+         "received Pip.Lock map compared with the model (non-trivial: non-empty map).",
  'assumptions': ['recorded [after-Lock, before-Unlock] intervals are sub-intervals of true holding, so overlap of two conflicting intervals proves '
                  'simultaneous holding',
                  'progress clauses use a 20 s watchdog for work that takes micro- to milliseconds (the statement promises progress)',
@@ -14,7 +18,9 @@ CHECK = {'rule': 'Holders of the shared mutex service (goroutines calling Shared
                  "or possibly queued), because Go's RWMutex lets a queued writer hold back later readers",
                  'a lock map names a resource at most once (it is a Go map)',
                  "pipeline variant: tasks share one scope and have empty wait lists; the probe command runs inside runner.runGo's Lock..Unlock "
-                 'window'],
+                 'window',
+                 "argument layer: a resource named under --wlock was asked for write access whatever else the lists contain; every session uses the "
+                 "default lock namespace; list entries match pip:run's name pattern (malformed lists are not generated)"],
  'essential_labels': {'all': ['conflict-contended',
                               'deadlock-prone-pair',
                               'readers-shared-overlap',
@@ -27,22 +33,38 @@ CHECK = {'rule': 'Holders of the shared mutex service (goroutines calling Shared
                               'gated-read-overlap',
                               'gated-conflicting-start',
                               'pipeline',
-                              'pipeline-gated']},
+                              'pipeline-gated',
+                              'cli',
+                              'cli-gated',
+                              'cli-map',
+                              'cli-name-in-both-lists',
+                              'cli-both-lists-shared',
+                              'cli-global-name',
+                              'cli-repeated-name',
+                              'cli-blanks']},
  'tiers': {'quick': [{'test': '^TestEnum$', 'timeout': 240, 'shrinktime': '5s'},
                      {'test': '^TestPropGated$', 'checks': 4000, 'shards': 2, 'timeout': 240, 'shrinktime': '5s', 'seed_offset': 100},
                      {'test': '^TestProp$', 'checks': 2000, 'shards': 3, 'timeout': 240, 'shrinktime': '5s'},
                      {'test': '^TestPropPipGated$', 'checks': 1500, 'shards': 1, 'timeout': 240, 'shrinktime': '5s', 'seed_offset': 300},
-                     {'test': '^TestPropPip$', 'checks': 1000, 'shards': 1, 'timeout': 240, 'shrinktime': '5s', 'seed_offset': 200}],
+                     {'test': '^TestPropPip$', 'checks': 1000, 'shards': 1, 'timeout': 240, 'shrinktime': '5s', 'seed_offset': 200},
+                     {'test': '^TestPropCliGated$', 'checks': 800, 'shards': 1, 'timeout': 240, 'shrinktime': '5s', 'seed_offset': 400},
+                     {'test': '^TestPropCli$', 'checks': 600, 'shards': 1, 'timeout': 240, 'shrinktime': '5s', 'seed_offset': 500},
+                     {'test': '^TestPropCliMap$', 'checks': 3000, 'shards': 1, 'timeout': 240, 'shrinktime': '5s', 'seed_offset': 600}],
            'thorough': [{'test': '^TestEnum$', 'timeout': 900, 'shrinktime': '5s'},
                         {'test': '^TestPropGated$', 'checks': 40000, 'shards': 3, 'timeout': 900, 'shrinktime': '5s', 'seed_offset': 100},
                         {'test': '^TestProp$', 'checks': 20000, 'shards': 8, 'timeout': 900, 'shrinktime': '5s'},
                         {'test': '^TestPropPipGated$', 'checks': 15000, 'shards': 2, 'timeout': 900, 'shrinktime': '5s', 'seed_offset': 300},
-                        {'test': '^TestPropPip$', 'checks': 10000, 'shards': 2, 'timeout': 900, 'shrinktime': '5s', 'seed_offset': 200}]}}
+                        {'test': '^TestPropPip$', 'checks': 10000, 'shards': 2, 'timeout': 900, 'shrinktime': '5s', 'seed_offset': 200},
+                        {'test': '^TestPropCliGated$', 'checks': 10000, 'shards': 2, 'timeout': 900, 'shrinktime': '5s', 'seed_offset': 400},
+                        {'test': '^TestPropCli$', 'checks': 8000, 'shards': 2, 'timeout': 900, 'shrinktime': '5s', 'seed_offset': 500},
+                        {'test': '^TestPropCliMap$', 'checks': 30000, 'shards': 1, 'timeout': 900, 'shrinktime': '5s', 'seed_offset': 600}]}}
 
 TEXT = {'technique': 'property-based testing with generated schedules (rapid): holder sets (lock maps, start offsets, hold times, GOMAXPROCS) run as '
               'goroutines against the real SharedMutex and as pipeline tasks through pipservices.Runner.Run; interval-overlap invariant over '
               'sequence numbers taken inside the critical sections, channel-gated scenarios for non-serialisation, completion watchdog for deadlock; '
-              'exhaustive enumeration of all two-holder scenarios over 3 resources',
+              'exhaustive enumeration of all two-holder scenarios over 3 resources; argument layer: the same scenarios with every holder a concurrent '
+              'terminal session running pip:run with generated --rlock/--wlock lists, plus a recording PipRunner stand-in comparing the built '
+              'lock map with the model',
  'level_text': 'Exploration with an exhaustive core: all 1458 two-holder map pairs over 3 resources are enumerated in gated scenarios; larger holder '
                'sets, interleavings inside Lock and GOMAXPROCS are sampled (~18 k cases quick, ~330 k thorough).',
  'level_note': 'Exclusion is judged from sequence numbers taken strictly inside the critical sections (sound); non-serialisation and '
